@@ -352,7 +352,7 @@ def gen_case(rng, k):
             continue
         for it in o["items"]:
             if it["t"] in ("direction", "distance", "azimuth") and rng.random() < 0.25:
-                it["from_dh"], it["to_dh"] = round(rng.uniform(1.2, 1.8), 3), round(rng.uniform(1.0, 2.0), 3)
+                it["from_dh"], it["to_dh"] = round(rng.uniform(1.2, 1.8), 3), round(rng.choice([rng.uniform(1.0, 2.0), rng.uniform(-0.5, -0.05)]), 3)
             if it["t"] == "angle" and rng.random() < 0.6:
                 it["from_dh"] = round(rng.uniform(1.2, 1.8), 3)
                 it["bs_dh"] = round(rng.uniform(1.0, 2.0), 3)
@@ -508,7 +508,7 @@ def gen_record_case(rng):
         for nm in (("from_dh", "bs_dh", "fs_dh") if k == "angle" else ("from_dh", "to_dh")):
             r = rng.random()
             if r < 0.35:
-                a.append((nm, rng.choice(["1.5", "1.625", "0.25", "2"])))
+                a.append((nm, rng.choice(["1.5", "1.625", "0.25", "2", "-0.125", "-1.5"])))   # heights may be negative
             elif r < 0.5:
                 a.append((nm, rng.choice(["0", "0.0"])))
         if rng.random() < 0.3:
@@ -752,7 +752,7 @@ def gen_doc(rng):
                 if not els:
                     continue
             if rng.random() < 0.2:
-                ca.append(f'from_dh="{rng.choice(["1.5", "0", "1.25"])}"')
+                ca.append(f'from_dh="{rng.choice(["1.5", "0", "1.25", "-0.5"])}"')
             if rng.random() < 0.15:
                 ca.append('orientation="12.5"')
             sig = []
